@@ -12,7 +12,7 @@ RULE = ("the real _AdbPacketStore is driven next to an executable reference mode
         "non-trivial = a sequence containing at least one get; distinct = distinct explored (store state, remaining depth) nodes / random sequences")
 ASSUMPTIONS = ["get() is only called when the model says a matching pending pair exists (its documented precondition)", "clear() is called with concrete ids only"]
 SHARDS = {"quick": 8, "thorough": 16}
-TIME_BUDGET = {"quick": 60, "thorough": 900}
+TIME_BUDGET = {"quick": 300, "thorough": 1800}
 FLOORS = {"quick": {"observer_evaluations": 100000, "gets": 2000, "clse_puts_unspecified": 50, "distinct": 500, "live_gets": 300, "live_puts": 300},
           "thorough": {"observer_evaluations": 2000000, "gets": 50000}}
 EXHAUSTIVE = {"quick": True, "thorough": True}
